@@ -704,3 +704,57 @@ func main() {
 		t.Errorf("ids %v %v", r.Routines[0].Gids, r.Routines[0].InGids)
 	}
 }
+
+// TestSurvey compiles many generated programs once each and prints the rejected/crashing ones:
+// VERIF_C12_SURVEY=n go test -run TestSurvey
+func TestSurvey(t *testing.T) {
+	ns := os.Getenv("VERIF_C12_SURVEY")
+	if ns == "" {
+		t.Skip("VERIF_C12_SURVEY not set")
+	}
+	needTools(t)
+	t.Cleanup(CleanupWork)
+	n := 0
+	fmt.Sscanf(ns, "%d", &n)
+	type job struct {
+		c Case
+	}
+	jobs := make(chan job)
+	var wg sync.WaitGroup
+	var mu sync.Mutex
+	counts := map[string]int{}
+	for w := 0; w < 12; w++ {
+		wg.Add(1)
+		go func() {
+			defer wg.Done()
+			for j := range jobs {
+				r := RunBondgo(j.c.Src, j.c.Rsize, j.c.Mpm, Plan{GoMaxProcs: 2})
+				key := r.Status
+				if r.Status == "rejected" || r.Status == "crash" {
+					key += ":" + firstErrorLine(r.Stdout, r.Stderr)
+				}
+				mu.Lock()
+				counts[key]++
+				first := counts[key] <= 2
+				mu.Unlock()
+				if first && (r.Status == "crash" || r.Status == "hang" || r.Status == "deadlock") {
+					fmt.Printf("SURVEY %s rsize=%d mpm=%v\n%s--- stdout\n%s--- stderr\n%s\n", key, j.c.Rsize, j.c.Mpm, j.c.Src, r.Stdout, dumpHead(r.Stderr))
+				}
+			}
+		}()
+	}
+	for i := 0; i < n; i++ {
+		o := GenOpts{Faithful: i%2 == 0}
+		jobs <- job{rapid.Custom(genCase(o)).Example(i)}
+	}
+	close(jobs)
+	wg.Wait()
+	var ks []string
+	for k := range counts {
+		ks = append(ks, k)
+	}
+	sort.Strings(ks)
+	for _, k := range ks {
+		fmt.Printf("SURVEY %-60s %d\n", k, counts[k])
+	}
+}
